@@ -23,10 +23,10 @@ const (
 
 // Obligation is one instance of a rule on one construct of the analysed tree.
 type Obligation struct {
-	Key    string `json:"key"`    // Cxx.Rn|<function or type>|<construct>  (never a line number)
-	Rule   string `json:"rule"`   // Cxx.Rn
+	Key    string `json:"key"`  // Cxx.Rn|<function or type>|<construct>  (never a line number)
+	Rule   string `json:"rule"` // Cxx.Rn
 	Status Status `json:"status"`
-	Pos    string `json:"pos"`    // file:line of the construct on this run
+	Pos    string `json:"pos"` // file:line of the construct on this run
 	Detail string `json:"detail,omitempty"`
 	Config string `json:"config,omitempty"`
 }
